@@ -51,6 +51,14 @@ def make_cases(ctx):
             for etm, init in variants:
                 yield "%04x-%d%d-e%d-%s" % (sid, ver[0], ver[1], etm, init), \
                     dict(sid=sid, ver=ver, etm=etm, init=init)
+    # post-handshake authentication: the later Finished is made with the
+    # same hash as everything else on the connection
+    for sid in sorted(suites.TABLE):
+        if suites.TABLE[sid].tls13 and suites.TABLE[sid].negotiable:
+            for ck in ("rsa", "ecdsa"):
+                for init in ("c", "s"):
+                    yield "pha-%04x-%s-%s" % (sid, ck, init), dict(
+                        sid=sid, ver=(3, 4), etm=True, init=init, pha=ck)
     # servers holding several key pairs of different types: the suite's
     # authentication type must follow the key pair actually used
     for ver in ((3, 3), (3, 2), (3, 4)):
@@ -332,6 +340,93 @@ def run_foreign(ctx, cid, P):
                                      outcome(tc)))
 
 
+def split_hs(buf):
+    out = []
+    while len(buf) >= 4:
+        ln = int.from_bytes(buf[1:4], "big")
+        out.append((buf[0], bytes(buf[:4 + ln])))
+        buf = buf[4 + ln:]
+    return out
+
+
+def run_pha(ctx, cid, P, p, su, key, W, init):
+    """post-handshake authentication on a connection whose sender (init)
+    has already moved to its next traffic secret: it must complete, and the
+    client's Finished is HMAC(HKDF-Expand-Label(current client application
+    traffic secret, "finished", "", Hash.length), transcript hash) with the
+    suite's hash (RFC 8446 4.4.4)"""
+    nc, ns = len(p.link.recs("c2s")), len(p.link.recs("s2c"))
+
+    def poll(conn, d):
+        # (each call with min=0 takes one record: data written earlier by
+        # the peer comes first)
+        for _ in range(200):
+            if not (p.link.in_flight(d) or len(conn.sock._read_buffer)):
+                break
+            g = conn.readAsync(None, 0)
+            for r in g:
+                if isinstance(r, int) and r in (0, 1):
+                    if not p.link.in_flight(d) and \
+                            not len(conn.sock._read_buffer):
+                        g.close()
+                        break
+                    yield r
+    t1 = drive.Task("req", p.s.request_post_handshake_auth(), p.ssock)
+    drive.run([t1], p.link)
+    t2 = drive.Task("ans", poll(p.c, "s2c"), p.csock)
+    drive.run([t2], p.link, max_steps=5000)
+    t3 = drive.Task("fin", poll(p.s, "c2s"), p.ssock)
+    drive.run([t3], p.link, max_steps=5000)
+    ctx.ev()
+    ctx.count("pha_runs")
+    W = dict(W, pha=[str(outcome(t)) for t in (t1, t2, t3)])
+    chain = p.s.session.clientCertChain if p.s.session else None
+    if any(t.status != "done" for t in (t1, t2, t3)) or chain is None:
+        ctx.violation(dict(key, clause="pha_failed",
+                           server=str(outcome(t3))), W,
+                      "post-handshake authentication under %s failed: %r %r "
+                      "%r" % (su.name, t1.exc, t2.exc, t3.exc))
+        return
+    # independent recomputation of the client's Finished
+    sec_c = bytes(p.c.session.cl_app_secret)
+    sec_s = bytes(p.c.session.sr_app_secret)
+    msgs_s, msgs_c = [], []
+    for d, sec, n0, out in (("s2c", sec_s, ns, msgs_s),
+                            ("c2s", sec_c, nc, msgs_c)):
+        buf = b""
+        for r in p.link.recs(d)[n0:]:
+            if r.type != 23:
+                continue
+            res = verify_13(su, sec, r, range(0, 24))
+            if res is None:
+                ctx.violation(dict(key, clause="record_not_decryptable",
+                                   phase="pha"), W, "")
+                return
+            if res[1] == 22:
+                buf += res[2]
+        out.extend(split_hs(buf))
+    cr = [m for t, m in msgs_s if t == 13]
+    flight = [(t, m) for t, m in msgs_c if t in (11, 25, 15, 20)]
+    if len(cr) != 1 or [t for t, _ in flight][-1:] != [20]:
+        ctx.inconc("could not pick the PHA messages off the wire in %s" % cid)
+        return
+    hh = p.s._first_handshake_hashes.copy()
+    hh.update(bytearray(cr[0]))
+    for t, m in flight[:-1]:
+        hh.update(bytearray(m))
+    th = bytes(hh.digest(su.prf))
+    hl = kdf.dlen(su.prf)
+    fk = kdf.hkdf_expand_label(su.prf, sec_c, b"finished", b"", hl)
+    want = kdf.hmac(su.prf, fk, th)
+    got = flight[-1][1][4:]
+    ctx.count("pha_finished_recomputed")
+    if bytes(got) != bytes(want):
+        ctx.violation(dict(key, clause="pha_finished_not_per_suite_hash"),
+                      dict(W, got=bytes(got), want=bytes(want)),
+                      "the client's post-handshake Finished is not the "
+                      "RFC 8446 4.4.4 value under %s" % su.prf)
+
+
 def run_resver(ctx, cid, P):
     from vt.pair import Flavor, settings
     from tlslite.sessioncache import SessionCache
@@ -456,7 +551,9 @@ def run_case(ctx, cid, P):
         try:
             fl = suites.flavor_for(sid, ver,
                                    cset_kw=dict(useEncryptThenMAC=etm),
-                                   sset_kw=dict(useEncryptThenMAC=etm))
+                                   sset_kw=dict(useEncryptThenMAC=etm),
+                                   **(dict(ckey=P["pha"]) if P.get("pha")
+                                      else {}))
         except Exception as e:   # noqa
             ctx.count("config_rejected")
             return
@@ -743,9 +840,12 @@ def run_case(ctx, cid, P):
         else:
             ctx.violation(dict(key, clause="keyupdate_failed"), W,
                           "%r %r" % (t.exc, t2.exc))
+        if P.get("pha"):
+            run_pha(ctx, cid, P, p, su, key, W, init)
     ctx.count("judged")
-    ctx.cell("cell", "%s|%s|etm%d|%s" % (su.name, pair.VNAME[ver], etm_on,
-                                        init))
+    ctx.cell("cell", "%s|%s|etm%d|%s%s" % (su.name, pair.VNAME[ver], etm_on,
+                                          init, "|pha" if P.get("pha")
+                                          else ""))
     if len(ctx.samples) < 4:
         ctx.sample({"case": cid, "suite": su.name, "ver": pair.VNAME[ver],
                     "names": names, "records": len(newrecs)})
@@ -763,6 +863,8 @@ def finalize(m, tier):
         out.append("fewer than 150 (suite, version) cells judged")
     if c.get("records_decrypted", 0) < 500:
         out.append("fewer than 500 records independently decrypted")
+    if c.get("pha_finished_recomputed", 0) < 8:
+        out.append("fewer than 8 post-handshake Finished recomputed")
     if c.get("resver_attempts", 0) < 100:
         out.append("fewer than 100 sessions offered at a lower version")
     if c.get("names_cross_checked", 0) < 40:
